@@ -6,6 +6,7 @@
    collide); the model proves instead that acceptance implies Algorithm 6, and the harness tests rejection. *)
 From Coq Require Import ZArith List Bool.
 From PdfV Require Import Model.Crypt Proofs.CryptProofs.
+From PdfV Require Import Model.Fonts Model.CMaps Model.CryptR6 Proofs.CryptR6Proofs.
 Import ListNotations.
 Open Scope Z_scope.
 
@@ -74,6 +75,35 @@ Theorem C10_permissions : forall p, - 2147483648 <= p < 2147483648 ->
   is_printable (uint32 p) = Z.testbit p 2 /\ is_modifiable (uint32 p) = Z.testbit p 3 /\ is_extractable (uint32 p) = Z.testbit p 4.
 Proof. exact permissions_as_stored. Qed.
 
+(* ---- revision 6: the password hash (ISO 32000-2 Algorithm 2.B), Model/CryptR6.v -------------------------------- *)
+(* the selector computed as a sum of residues is the big-endian number modulo 3, for a byte string of any length *)
+Theorem C10_r6_selector : forall l, bytes_mod_3 l = nunpack l mod 3.
+Proof. exact bytes_mod_3_spec. Qed.
+
+(* for EVERY hash functions and cipher (whose output is bytes) the loop ends within the model's fuel ... *)
+Theorem C10_r6_terminates : forall (sha256 sha384 sha512 : bytes -> bytes) (aes_rep : bytes -> bytes -> bytes -> bytes),
+  (forall k iv d, Forall (fun b => 0 <= b <= 255) (aes_rep k iv d)) ->
+  forall pw salt vec, r6_password sha256 sha384 sha512 aes_rep pw salt vec <> None.
+Proof. exact r6_password_total. Qed.
+
+(* ... after at least 64 and at most 288 rounds ... *)
+Theorem C10_r6_rounds : forall (sha256 sha384 sha512 : bytes -> bytes) (aes_rep : bytes -> bytes -> bytes -> bytes),
+  (forall k iv d, Forall (fun b => 0 <= b <= 255) (aes_rep k iv d)) ->
+  forall pw salt vec out n,
+  r6_password_rounds sha256 sha384 sha512 aes_rep pw salt vec = Some (out, n) -> 64 <= n <= 288.
+Proof. exact r6_password_rounds_range. Qed.
+
+(* ... and returns the first 32 bytes of K_m for the FIRST round m >= 64 whose E ends in a byte <= m - 32, where
+   K_0 = SHA-256(password ++ salt ++ vector) and each round turns K_(i-1) into K_i as 2.B prescribes *)
+Theorem C10_r6_is_algorithm_2B : forall (sha256 sha384 sha512 : bytes -> bytes) (aes_rep : bytes -> bytes -> bytes -> bytes),
+  forall pw salt vec out n,
+  r6_password_rounds sha256 sha384 sha512 aes_rep pw salt vec = Some (out, n) ->
+  exists m, n = Z.of_nat m /\
+            out = firstn 32 (fst (k_seq sha256 sha384 sha512 aes_rep pw vec (sha256 (pw ++ salt ++ vec)) m)) /\
+            stops sha256 sha384 sha512 aes_rep pw vec (sha256 (pw ++ salt ++ vec)) m /\
+            forall j, (j < m)%nat -> ~ stops sha256 sha384 sha512 aes_rep pw vec (sha256 (pw ++ salt ++ vec)) j.
+Proof. exact r6_password_iso. Qed.
+
 Print Assumptions C10_rc4_involution.
 Print Assumptions C10_rc4_length.
 Print Assumptions C10_object_rc4.
@@ -87,9 +117,19 @@ Print Assumptions C10_auth5_owner.
 Print Assumptions C10_auth5_user.
 Print Assumptions C10_auth5_reject.
 Print Assumptions C10_permissions.
+Print Assumptions C10_r6_selector.
+Print Assumptions C10_r6_terminates.
+Print Assumptions C10_r6_rounds.
+Print Assumptions C10_r6_is_algorithm_2B.
 
 (* non-vacuity: RC4 test vector (key "Key", plaintext "Plaintext" -> BBF316E8D940AF0AD3) and a padded block *)
 Example C10_ex_rc4 : rc4 [75; 101; 121] [80; 108; 97; 105; 110; 116; 101; 120; 116] = [187; 243; 22; 232; 217; 64; 175; 10; 211].
 Proof. vm_compute. reflexivity. Qed.
 Example C10_ex_pad : unpad (pkcs_pad [1; 2; 3]) = [1; 2; 3] /\ length (pkcs_pad (repeat 7 16)) = 32%nat.
 Proof. vm_compute. split; reflexivity. Qed.
+(* the round loop on toy primitives: a cipher whose output ends in 200 keeps the loop going until round 232 *)
+Example C10_ex_r6 :
+  r6_password_rounds (fun d => firstn 32 (d ++ repeat 7 32)) (fun d => firstn 48 (d ++ repeat 8 48)) (fun d => firstn 64 (d ++ repeat 9 64))
+                     (fun k iv blk => k ++ iv ++ blk ++ [200]) [1; 2] [3; 4; 5; 6; 7; 8; 9; 10] []
+  = Some ([1; 2; 3; 4; 5; 6; 7; 8; 9; 10] ++ repeat 7 22, 232).
+Proof. vm_compute. reflexivity. Qed.
